@@ -103,9 +103,11 @@ def generate(job):
     else:
         n = ro.randint(2, 4)
         for _ in range(n):
-            k = ro.weighted([("fit", 6), ("set_params", 2), ("reinit", 1), ("save_restart", 3)])
+            k = ro.weighted([("fit", 6), ("set_params", 2), ("reinit", 1), ("save_restart", 3), ("fit_interrupted", 1.5)])
             if k == "fit":
                 ops.append({"k": "fit", "method": ro.choice(FAST), "maxiter": ro.choice([1, 2, 3, 5, 8]), "grad_scale": ro.choice([1.0, 1.0, 2.0]), "jac": ro.choice([True, True, True, True, "2-point"])})
+            elif k == "fit_interrupted":
+                ops.append({"k": "fit_interrupted", "method": ro.choice(["BFGS", "BFGS", "CG", "L-BFGS-B"]), "after": ro.choice([1, 2, 3]), "how": ro.choice(["callback", "callback", "large_number"])})
             elif k == "set_params":
                 ops.append({"k": "set_params", "seed": ro.randrange(1 << 30), "scale": ro.choice([0.3, 1.0])})
             elif k == "reinit":
@@ -265,7 +267,7 @@ class Session:
         amp = config.get_amplitude()
         vm = amp.vm
         k = op["k"]
-        log.count("op." + k + ("." + op["method"] if k == "fit" else ""))
+        log.count("op." + k + ("." + op["method"] if k in ("fit", "fit_interrupted") else ""))
         if k == "set_params":
             cards.randomize_params(amp, Stream(op["seed"], "move"), op.get("scale", 1.0), p_neg=0.3)
             self.negate_ties(Stream(op["seed"], "neg"))
@@ -282,6 +284,8 @@ class Session:
             return
         if k == "save_restart":
             return self.save_restart(i, op)
+        if k == "fit_interrupted":
+            return self.fit_interrupted(i, op)
         # ---- fit
         method = op["method"]
         before = {kk: float(v) for kk, v in config.get_params().items()}
@@ -347,6 +351,48 @@ class Session:
         if not res.success:
             log.count("probe.fit_stopped_early")
         log.state(sorted(after.items()))
+
+    def fit_interrupted(self, i, op):
+        """a fit that does not return: the user's callback raises after a few iterations (the Ctrl-C / failing
+        monitor analogue).  No result exists, so nothing is claimed about it; what is claimed is that the session
+        stays usable: every later fit must satisfy all clauses again (leftover bounds / transformed coordinates
+        of the aborted fit would show there)."""
+        config = self.config
+        n = [0]
+
+        class Abort(Exception):
+            pass
+
+        def cb(x, fcn):
+            n[0] += 1
+            if n[0] >= op.get("after", 2):
+                raise Abort()
+
+        try:
+            config.fit([self.data], [self.phsp], method=op.get("method", "BFGS"), maxiter=20, batch=self.spec["batch"], print_init_nll=False, callback=cb)
+            self.log.count("probe.interrupted_fit_finished_before_the_fault")
+        except Abort:
+            self.log.count("fault.fit_aborted_by_callback_exception")
+        except Exception as e:
+            import traceback
+
+            tb = traceback.extract_tb(e.__traceback__)
+            if "/verif/" in tb[-1].filename:
+                raise
+            self.log.ev("interrupted-fit-raised", err=type(e).__name__)
+        self.changing += 1
+        self.last_result = None
+        # the aborted fit leaves the model at some intermediate point: a legal start for whatever comes next,
+        # but it must be a point inside the configured ranges
+        self.inside_bounds_or_note()
+
+    def inside_bounds_or_note(self):
+        p = {kk: float(v) for kk, v in self.config.get_params().items()}
+        for n, (lo, hi) in self.bounds(self.config).items():
+            if n in p and ((lo is not None and p[n] < lo - 1e-9) or (hi is not None and p[n] > hi + 1e-9)):
+                self.log.count("probe.aborted_fit_left_parameter_outside_range")
+                self.inside_bounds()
+                return
 
     def save_restart(self, i, op):
         log = self.log
